@@ -91,7 +91,7 @@ def run(ctx):
         env["VERIF_REPLAY"] = os.path.abspath(ctx.replay)
     else:
         env["VERIF_CORPUS"] = os.path.join(os.path.dirname(os.path.dirname(os.path.abspath(__file__))), "harness", "corpus", "C13")
-        env["VERIF_SEQS"] = 90 if ctx.thorough else 10
+        env["VERIF_SEQS"] = 90 if ctx.thorough else 6
     rc, log, out = ctx.run_harness(binary, "TestVerifC13", env, timeout=3000)
     if rc != 0:
         ctx.oblige("harness-runs", False, log[-1500:])
@@ -160,7 +160,7 @@ def run(ctx):
         # P2/P3: no panic; List / Exists agree with ListDIDs
         for k, (op, o) in enumerate(zip(w["ops"], obs)):
             if o[0] == "hang":
-                report("C13:hang", f"event {k} ({op.get('kind', op['op'])}) did not return within 20 s (fault {w['ops'][k-1].get('fault') if k else None} before it)", w)
+                report("C13:hang", f"event {k} ({op.get('kind', op['op'])}) did not return within 90 s (fault {w['ops'][k-1].get('fault') if k else None} before it)", w)
             if o[0].startswith("ok:"):
                 report("C13:create-" + o[0][3:], f"event {k} ({op.get('kind')}): Create returned DIDs that ListDIDs(returned subject) does not list", w)
             if o[0].startswith("panic:"):
